@@ -214,13 +214,42 @@ def run(scratch, units=None, post=None, want_air=True, timeout=1800):
         res.update(status='undecided', reason='annotated crate does not compile (contract no longer matches the code):\n' + txt[:3000])
         return res
     cache = {}
+    limited = []
     for d in errs:
         f = classify(crate, d, cache)
         if f.kind == 'rlimit':
-            res['status'] = 'undecided'
-            res['reason'] += 'resource limit in %s; ' % f.fn
+            limited.append(f)
             continue
         res['failures'].append(f)
+    # a resource limit decides nothing: give each such function one more run on its own with 8x the budget.  It then either
+    # verifies (decided), fails with a definite obligation (reported like any other failure) or stays undecided.
+    res['rlimit_retries'] = []
+    for f in limited[:4]:
+        rel = f.file.replace('src/', '')
+        mod = rel[:-3].replace('/', '::')
+        mod = mod[:-5] if mod.endswith('::mod') else mod
+        if rel == 'dns/rdata/macros.rs':
+            mod = 'dns::rdata'
+        fn = f.fn.split(' [')[0]
+        m = re.match(r'(.*) as (.*)::(\w+)$', fn)
+        vfn = ('%s::%s' % (m.group(1), m.group(3))) if m else fn
+        r2 = run_verus.run(crate, extra=['--verify-only-module', mod, '--verify-function', vfn, '--rlimit', '80'], timeout=900)
+        errs2 = [d for d in r2.get('diags', []) if d['level'] == 'error' and not d['message'].startswith('aborting due to')]
+        v2 = ((r2.get('json') or {}).get('verification-results') or {})
+        if r2.get('status') == 'done' and not errs2 and v2.get('verified'):
+            res['rlimit_retries'].append('%s: verified on its own with rlimit 80' % f.fn)
+            continue
+        definite = [classify(crate, d, cache) for d in errs2]
+        definite = [g for g in definite if g.kind != 'rlimit']
+        if r2.get('status') == 'done' and definite and v2.get('errors'):
+            res['rlimit_retries'].append('%s: definite failure with rlimit 80' % f.fn)
+            res['failures'] += definite
+            continue
+        res['status'] = 'undecided'
+        res['reason'] += 'resource limit in %s (also with 8x the budget); ' % f.fn
+    for f in limited[4:]:
+        res['status'] = 'undecided'
+        res['reason'] += 'resource limit in %s; ' % f.fn
     res['verification_results'] = js['verification-results']
     res['times'] = js.get('times-ms', {})
     res['obligations_per_fn'] = air_obligations(log_dir) if log_dir else {}
